@@ -367,6 +367,40 @@ def rule_shapes(F, ev, R, config, rule="R-SHAPES", parts=("set_params", "jacobia
             R.bad(rule, config, fn_key, "%s:undetermined:%s" % (inst, what), "shape of a checked matrix expression cannot be established: %s" % msg)
         return sh
 
+    def kernel_buffers(root_keys, axioms, fn_key, inst):
+        """in-place kernels met while the terms of this part were evaluated (`a.tr_mul_to(&b, &mut out)`, `out.copy_from(&m)`,
+        `y.gemm(α, a, b, 0)`): nalgebra asserts that the buffer already HAS the shape of the value it receives. The value
+        terms forget the buffer, so its allocation is compared with the value here."""
+        nonlocal total
+        import effects as fx
+        for rk in root_keys:
+            rb = F.bodies.get(rk)
+            if rb is not None:
+                try:
+                    list(fx.iteration_effects(ev, Env(rb)))
+                except RecursionError:
+                    pass
+        for site, (nm, base, val) in sorted(ev.kernel_obligations.items(), key=lambda kv: str(kv[0])):
+            root = site[2][0][0] if site[2] else site[0]
+            if not any(root == rk or root.startswith(rk + "::") for rk in root_keys):
+                continue
+            shp = Shapes(F, ev, axioms)
+            try:
+                sb = shp.shape(base)
+                sv = shp.shape(val)
+            except (ShapeError, RecursionError):
+                continue
+            shp.need_eq(sb[0], sv[0], "%s: rows of the target buffer" % nm, val)
+            shp.need_eq(sb[1], sv[1], "%s: columns of the target buffer" % nm, val)
+            total += len(shp.checked)
+            loc = F.bodies[site[0]].key if site[0] in F.bodies else fn_key
+            span = F.bodies[site[0]].j.get("span") if site[0] in F.bodies else None
+            for what, a_, b_, t_ in shp.errors:
+                R.bad(rule, config, loc, "%s:buffer:%s" % (inst, what), "dimension mismatch (%s): the buffer is %s×%s, the value written into it %s×%s — nalgebra panics here whenever the two differ" % (
+                    what, show_dim(sb[0]), show_dim(sb[1]), show_dim(sv[0]), show_dim(sv[1])), span)
+            if not shp.errors:
+                R.ok(rule, config, loc, "%s:buffer:%s" % (inst, nm), "buffer %s×%s receives a value of the same shape" % (show_dim(sb[0]), show_dim(sb[1])), span)
+
     # ---- LeastSquaresProblem impls ----
     for self_ty, ms in sorted(lsp_impls(F).items()):
         fl = flavour_of(self_ty)
@@ -399,6 +433,7 @@ def rule_shapes(F, ev, R, config, rule="R-SHAPES", parts=("set_params", "jacobia
                         R.add(rule, config, b.key, "residuals:S×R@" + fl, okr, "" if okr else "cached residuals have shape %s×%s" % (show_dim(sr[0]), show_dim(sr[1])))
             except ShapeError as e:
                 R.bad(rule, config, b.key, "cache-shapes@" + fl, str(e))
+            kernel_buffers([b.key], ax, b.key, "set_params@" + fl)
         jb = ms.get("jacobian")
         if jb is not None and "jacobian" in parts:
             from rules_problem2 import jacobian_column_write
@@ -418,6 +453,7 @@ def rule_shapes(F, ev, R, config, rule="R-SHAPES", parts=("set_params", "jacobia
                         len(shp.checked), show_dim(sa[0]), show_dim(sa[1]), show_dim(sv[0]), show_dim(sv[1])))
             except (ShapeError, AnchorMissing) as ex:
                 R.bad(rule, config, jb.key, "jacobian-column@%s:undetermined" % fl, str(ex))
+            kernel_buffers([jb.key], ax, jb.key, "jacobian@" + fl)
     # ---- statistics ----
     try:
         if "statistics" not in parts:
